@@ -69,6 +69,7 @@ def c10_post(run, summ, tmpdir):
 CHECKS = {
     "C10": dict(
         promote=True,   # thorough bounds cost seconds: used for the quick tier as well
+        deep=True,      # ./check adds --deep for the thorough tier: bounds beyond the promoted ones (see bounds["thorough"])
         level="exploration",
         runs=[dict(name="dh", target="h_dh", args=[], quick=[], thorough=[], post=c10_post)],
         deadline=dict(quick=150, thorough=600),
